@@ -18,6 +18,7 @@ import GIV.Lemmas.ScriptExpandIdx
 import GIV.Lemmas.ScriptEnv
 import GIV.Lemmas.ScriptRegex
 import GIV.Lemmas.ScriptGo
+import GIV.Lemmas.OsExpandGo
 namespace GIV.C02
 open GIV GIV.Script
 
@@ -527,5 +528,80 @@ theorem go_atR_exact (env : Env) (name : Bytes) :
 
 -- the generated definition, evaluated by the kernel: ${KR@R} with KR = "a.b", K = "zz"
 example : GIV.Go.Script.expandMapping [(lit "K", lit "zz"), (lit "KR", lit "a.b")] (lit "KR@R") = some (.ok (lit "a\\.b")) := by decide +kernel
+
+/-! ### tie to the Go code: the regenerated translation of the standard library's os.Expand
+
+`GIV.Gen.OsExpandGo` is generated on every check run by the same translator from `GOROOT/src/os/env.go` of the
+toolchain the harness is built with: `GIV.Go.Os.Expand s mapping` is `os.Expand`, statement by statement — its
+`buf` an `Option` (Go's `buf == nil` is observed twice), `mapping` an arbitrary function — and
+`GIV.Go.Os.getShellName`, `isShellSpecialVar`, `isAlphaNum` are its helpers.  `osExpand` below is the structural
+model every expansion theorem of this file is about. -/
+
+/-- The translated os.Expand is the model's `osExpand` — for every string and every mapping function; in
+particular no index, no slice expression and no loop budget of the translation ever fails. -/
+theorem go_osExpand_agrees (s : Bytes) (mapping : Bytes → Bytes) :
+    GIV.Go.Os.Expand s mapping = some (osExpand s mapping) :=
+  GIV.OsExpandGo.Expand_eq s mapping
+
+-- the generated definitions, evaluated by the kernel: "a$X-${Y}$$" with X ↦ "1", Y ↦ "2" ("$$" is the special
+-- variable `$`, which this mapping leaves empty)
+example : GIV.Go.Os.Expand (lit "a$X-${Y}$$") (fun k => if k = lit "X" then lit "1" else if k = lit "Y" then lit "2" else [])
+    = some (lit "a1-2") := by decide +kernel
+
+/-- … through the index form the driver runs against the real os.Expand (`expand_index_form_agrees`). -/
+theorem go_osExpand_index_form (s : Bytes) (mapping : Bytes → Bytes) :
+    GIV.Go.Os.Expand s mapping = osExpandIdx s mapping :=
+  GIV.OsExpandGo.Expand_eq_idx s mapping
+
+/-- The translated getShellName is the model's, for every non-empty string (os.Expand only calls it on
+`s[j+1:]` with `j+1 < len(s)`); on the empty string it panics, like Go's `s[0]`. -/
+theorem go_getShellName_agrees (c : UInt8) (s : Bytes) :
+    GIV.Go.Os.getShellName (c :: s) = some ((getShellName c s).1, ((getShellName c s).2 : Int)) ∧
+    GIV.Go.Os.getShellName [] = none := by
+  constructor
+  · rw [GIV.OsExpandGo.getShellName_eq, getShellNameIdx_eq]; rfl
+  · rw [GIV.OsExpandGo.getShellName_eq]; rfl
+
+/-- The two byte classes of os/env.go, translated, are the model's (which are built from the regenerated
+case list `shellSpecialVars` and the regenerated shape fact for isAlphaNum). -/
+theorem go_shell_classes (c : UInt8) :
+    GIV.Go.Os.isShellSpecialVar c = some (isShellSpecialVar c) ∧ GIV.Go.Os.isAlphaNum c = some (isAlphaNum c) :=
+  ⟨GIV.OsExpandGo.isShellSpecialVar_eq c, GIV.OsExpandGo.isAlphaNum_eq c⟩
+
+/-- `(*TestScript).expand` over the translated code: the translated os.Expand applied to the mapping function of
+`expand` (itself the translated closure, `go_expandMapping_agrees`) is the model's `expand env` — the function the
+translated tokenizer `GIV.Go.Script.parse` calls for every unquoted chunk. -/
+theorem go_expand_agrees (env : Env) (s : Bytes) :
+    GIV.Go.Os.Expand s (expandMapping env) = some (expand env s) := by
+  rw [go_osExpand_agrees]
+  simp [expand, Gen.Script.expandIsOsExpand]
+
+/-- **Expansion happens once**, restated for the translated os.Expand: `p$NAMEq` and `p${NAME}q` (text `p`, `q`
+without '$', `q` not continuing the name in the first form) become `p`, the current value of NAME — whatever bytes it
+contains: blanks, quotes, '$', '#', nothing — and `q`; the value is not looked at again. -/
+theorem go_expand_once (env : Env) (p k q v : Bytes) (hp : ∀ c ∈ p, c ≠ 36) (hq : ∀ c ∈ q, c ≠ 36)
+    (hk : NameOK k) (hv : lookup env k = v) :
+    (( ∀ c, q.head? = some c → isAlphaNum c = false) →
+      GIV.Go.Os.Expand (p ++ 36 :: (k ++ q)) (expandMapping env) = some (p ++ v ++ q)) ∧
+    GIV.Go.Os.Expand (p ++ 36 :: 123 :: (k ++ 125 :: q)) (expandMapping env) = some (p ++ v ++ q) := by
+  subst hv
+  constructor
+  · intro hr
+    rw [go_expand_agrees]
+    exact congrArg some (expand_name_in env p k q hp hq hk hr)
+  · rw [go_expand_agrees]
+    exact congrArg some (expand_braced_in env p k q hp hq hk)
+
+-- the generated definitions, evaluated by the kernel — the `buf == nil` paths: no '$' at all (buf stays nil:
+-- the argument is returned), "${}x" (buf non-nil but empty: "x"), a '$' as last byte
+example : GIV.Go.Os.Expand (lit "plain") (fun _ => lit "?") = some (lit "plain") := by decide +kernel
+example : GIV.Go.Os.Expand (lit "${}x") (fun _ => lit "?") = some (lit "x") := by decide +kernel
+example : GIV.Go.Os.Expand (lit "x$") (fun _ => lit "?") = some (lit "x$") := by decide +kernel
+example : GIV.Go.Os.getShellName (lit "{K@R}z") = some (lit "K@R", 5) ∧ GIV.Go.Os.getShellName (lit "{") = some ([], 1) ∧
+    GIV.Go.Os.getShellName (lit "ab-") = some (lit "ab", 2) := by decide +kernel
+-- the value of K contains a blank, a quote, '$K' and '#': copied, not expanded again
+example : GIV.Go.Os.Expand ([120] ++ 36 :: 123 :: ([75] ++ 125 :: [121])) (expandMapping [([75], [97, 32, 39, 36, 75, 32, 35])])
+    = some ([120] ++ [97, 32, 39, 36, 75, 32, 35] ++ [121]) :=
+  (go_expand_once _ [120] [75] [121] _ (by decide) (by decide) ⟨by decide, 75, [], rfl, by decide⟩ (by decide)).2
 
 end GIV.C02
